@@ -40,7 +40,9 @@ def _drop_ops(spec, keep):
         ops.append(op)
     s = copy.deepcopy(spec)
     s["ops"] = ops
-    used = {op.get("s") for op in ops} | {op.get("source") for op in ops}
+    used = set()
+    for op in ops:
+        used.update(op.get(k) for k in ("s", "source", "src", "dst"))
     s["structures"] = {k: v for k, v in s["structures"].items() if k in used}
     return s
 
